@@ -4,6 +4,7 @@ package main
 
 import (
 	"fmt"
+	"os"
 	"go/types"
 	"strings"
 
@@ -67,12 +68,46 @@ func (e *Env) callValue(fr *Frame, fv Value, args []Value, rt types.Type, st *St
 	// unknown function value
 	e.panicCheck(fr, "nilfunc", st, mkNot(mkEq(f.Abs, "0")))
 	top := e.topItem()
+	if top != nil && top.Opts["callbacks"] == "trace" {
+		// the callback is unknown code that does not touch modelled state; each call is logged
+		// on the ghost trace `cb`: (function value, first argument leaf, result as 0/1 or value)
+		e.trust("callbacks through function values are assumed not to touch modelled state (opt callbacks trace)")
+		var res Value
+		if tup, ok := rt.(*types.Tuple); !(ok && tup.Len() == 0) {
+			res = e.freshValue(rt, "cbres")
+		}
+		comps := []string{f.Abs}
+		if len(args) > 0 {
+			comps = append(comps, e.flatten(args[0])[0])
+		} else {
+			comps = append(comps, "0")
+		}
+		if res != nil {
+			r := e.flatten(res)[0]
+			if sc, ok := res.(*Sc); ok && sc.Sort == sBool {
+				r = mkIte(r, "1", "0")
+			}
+			comps = append(comps, r)
+		} else {
+			comps = append(comps, "0")
+		}
+		if !fr.pure {
+			e.emit(st, "cb", comps)
+		}
+		return res
+	}
 	if top != nil && top.Opts["callbacks"] == "pure" {
 		e.trust("callbacks through function values are assumed not to touch modelled state (opt callbacks pure)")
 		if tup, ok := rt.(*types.Tuple); ok && tup.Len() == 0 {
 			return nil
 		}
 		return e.freshValue(rt, "cbres")
+	}
+	if os.Getenv("GOVC_DEBUG") != "" {
+		fmt.Fprintf(os.Stderr, "DEBUG unknown func value: %#v in %s\n", f, fr.fn)
+		for k, v := range fr.regs {
+			fmt.Fprintf(os.Stderr, "   reg %s (%T) = %T %v\n", k.Name(), k, v, v)
+		}
 	}
 	unsupp("call through an unknown function value in %s", fr.fn.Name())
 	return nil
